@@ -366,7 +366,7 @@ class FixpointProbe:
 
 
 @register("solve")
-def make(model, cfg=None, mode="solve", select=("C01", "C02"), order=None, objective=0, D=None, known=(), history=None, loop_budget=None):
+def make(model, cfg=None, mode="solve", select=("C01", "C02"), order=None, objective=0, D=None, known=(), history=None, loop_budget=None, partial=None):
     """mode: solve | minimize | maximize"""
     cfg = dict(cfg or {})
     select = set(select)
@@ -454,6 +454,8 @@ def make(model, cfg=None, mode="solve", select=("C01", "C02"), order=None, objec
                     if len(sols) > max_sols:
                         report("C02", "more-solutions-than-assignments", None, count=len(sols))
                         return
+                    if partial is not None and len(sols) >= partial:
+                        break  # partial enumeration: the statistics are observed here
             elif mode == "minimize":
                 best = solver.minimize(objective)
             elif mode == "maximize":
@@ -537,7 +539,7 @@ def make(model, cfg=None, mode="solve", select=("C01", "C02"), order=None, objec
             return out
 
         full_decision = cfg.get("decision") is None
-        if enum_mode and "C02" in select and full_decision:
+        if enum_mode and "C02" in select and full_decision and partial is None:
             dv = [dom_vec(s) for s in solz]
             dup = OR([AND([a == b for a, b in zip(dv[i], dv[j]) if a is not None]) for i in range(len(dv)) for j in range(i + 1, len(dv))])
             if E.query(dup):
@@ -563,7 +565,7 @@ def make(model, cfg=None, mode="solve", select=("C01", "C02"), order=None, objec
             g = ghost.g
             exp = {"PROPAGATOR_FILTER_NB": g["filter"], "PROPAGATOR_INCONSISTENCY_NB": g["incons"], "PROPAGATOR_ENTAILMENT_NB": g["entail"], "PROPAGATOR_FILTER_NO_CHANGE_NB": g["nochange"], "SOLVER_CHOICE_NB": g["choice"] if cfg.get("cons", "bc") == "bc" else None, "SOLVER_BACKTRACK_NB": g["bt"] if cfg.get("cons", "bc") == "bc" else None, "ALG_BC_NB": g["bc"], "SOLVER_CHOICE_DEPTH": g["depth"] if cfg.get("cons", "bc") == "bc" else None, "SOLVER_SOLUTION_NB": len(sols) if enum_mode else None}
             wrong = {k: (int(stats[k]), v) for k, v in exp.items() if v is not None and int(stats[k]) != v}
-            if enum_mode and cfg.get("cons", "bc") == "bc":
+            if enum_mode and partial is None and cfg.get("cons", "bc") == "bc":
                 if int(stats["ALG_BC_NB"]) != 1 + int(stats["SOLVER_CHOICE_NB"]) + int(stats["SOLVER_BACKTRACK_NB"]):
                     wrong["law:passes=1+choices+backtracks"] = (int(stats["ALG_BC_NB"]), int(stats["SOLVER_CHOICE_NB"]), int(stats["SOLVER_BACKTRACK_NB"]))
             for k, v in wrong.items():
@@ -583,6 +585,7 @@ def make(model, cfg=None, mode="solve", select=("C01", "C02"), order=None, objec
             w = wit(m)
             w["solutions"] = [[E.ev(m, v) for v in s] for s in solz]
             w["none"] = best is None and not enum_mode
+            w["partial"] = partial
             if stats is not None:
                 w["stats"] = {k: int(v) for k, v in stats.items()}
             if history:
